@@ -267,7 +267,7 @@ func init() {
 		}{{"Gen_C03", 2}, {"Gen_C04", 2}, {"Gen_C05", 2}, {"Gen_C06", 4}, {"Gen_C14", 1}, {"Gen_C02", 16}} {
 			np := g.np
 			if c.Thorough {
-				np = 1
+				np = 2 * g.np // the thorough grids are an order of magnitude larger; a whole one does not fit one TLC process
 			}
 			c.Logf("tracked vs untracked execution of the cases of %s (every %d-th case)", g.mod, np)
 			files, err := c.GenerateSample(g.mod, np, 30*time.Minute)
@@ -322,7 +322,7 @@ func init() {
 		}{{"Gen_C06", 2}, {"Gen_C03", 2}, {"Gen_C04", 2}, {"Gen_C05", 2}, {"Gen_C02", 16}, {"Gen_C16", 1}} {
 			np := g.np
 			if c.Thorough {
-				np = 1
+				np = 2 * g.np // the thorough grids are an order of magnitude larger; a whole one does not fit one TLC process
 			}
 			c.Logf("overwriting the caller's slices in the cases of %s (every %d-th case)", g.mod, np)
 			files, err := c.GenerateSample(g.mod, np, 30*time.Minute)
